@@ -421,7 +421,7 @@ func checkC17(c *Ctx, r *Report) {
 			case *ast.Ident:
 				obj := info.ObjectOf(x)
 				origin := ""
-				ast.Inspect(fi.Decl.Body, func(n ast.Node) bool {
+				w.inspectRegion(fi, func(n ast.Node) bool {
 					as, ok := n.(*ast.AssignStmt)
 					if !ok || len(as.Rhs) != 1 || len(as.Lhs) == 0 {
 						return true
@@ -438,7 +438,7 @@ func checkC17(c *Ctx, r *Report) {
 		for _, field := range []string{"revDeps", "edges"} {
 			// idiom 1: slices.Collect(maps.Keys|Values(g.F[k])) - complete by construction
 			collected := false
-			ast.Inspect(fi.Decl.Body, func(n ast.Node) bool {
+			w.inspectRegion(fi, func(n ast.Node) bool {
 				cl, ok := n.(*ast.CallExpr)
 				if !ok || len(cl.Args) != 1 || !strings.HasPrefix(calleeOfCall(info, cl), "slices.Collect") {
 					return true
@@ -630,7 +630,7 @@ func checkC17(c *Ctx, r *Report) {
 			b, ok := m.Elem().Underlying().(*types.Basic)
 			return ok && b.Kind() == types.Bool
 		}
-		ast.Inspect(fi.Decl.Body, func(nd ast.Node) bool {
+		w.inspectRegion(fi, func(nd ast.Node) bool {
 			if nd == nil {
 				stack = stack[:len(stack)-1]
 				return true
